@@ -452,6 +452,32 @@ func GenGrammarMetric(t *rapid.T, depth int, allowYear bool) *gen.Metric {
 			return o
 		}
 		m.L, m.R = operand("gm-l"), operand("gm-r")
+		// Deliberately: one operand is a bare operation of a tighter level, most often the next
+		// one up ("a unless b or c", "a > b and c", "a + b > c", "a * b + c", "a ^ b * c").
+		if rapid.IntRange(0, 3).Draw(t, "gm-chain") == 0 {
+			var tighter []string
+			for _, op := range append(append(append([]string{}, ArithOps...), CmpOps...), SetOps...) {
+				if d := BinPrec(op) - BinPrec(m.Op); d == 1 || (d > 1 && rapid.IntRange(0, 3).Draw(t, "gm-chain-far") == 0) {
+					tighter = append(tighter, op)
+				}
+			}
+			if len(tighter) > 0 {
+				child := &gen.Metric{Kind: "binop", Op: rapid.SampledFrom(tighter).Draw(t, "gm-chain-op")}
+				simple := func(label string) *gen.Metric {
+					o := GenGrammarMetric(t, 0, allowYear)
+					if o.Kind == "binop" && o.Parens == 0 {
+						o.Parens = 1
+					}
+					return o
+				}
+				child.L, child.R = simple("gm-chain-l"), simple("gm-chain-r")
+				if rapid.Bool().Draw(t, "gm-chain-left") {
+					m.L = child
+				} else {
+					m.R = child
+				}
+			}
+		}
 		if !isSet(m.Op) && CmpOpSet[m.Op] && rapid.Bool().Draw(t, "gm-bool") {
 			m.Bool = true
 		}
@@ -463,7 +489,7 @@ func GenGrammarMetric(t *rapid.T, depth int, allowYear bool) *gen.Metric {
 				// An include list directly in front of a parenthesised right operand would be
 				// read as part of that operand: only generate it when the operand does not
 				// start with "(".
-				if m.R.Parens == 0 && rapid.Bool().Draw(t, "gm-include") {
+				if !metricStartsWithParen(m.R) && rapid.Bool().Draw(t, "gm-include") {
 					m.HasInclude = true
 					m.Include = genIdents(t, "gm-include-labels", 0, 2)
 				}
@@ -474,6 +500,16 @@ func GenGrammarMetric(t *rapid.T, depth int, allowYear bool) *gen.Metric {
 		m.Parens += rapid.IntRange(1, 2).Draw(t, "gm-nparens")
 	}
 	return m
+}
+
+func metricStartsWithParen(m *gen.Metric) bool {
+	if m.Parens > 0 {
+		return true
+	}
+	if m.Kind == "binop" {
+		return metricStartsWithParen(m.L)
+	}
+	return false
 }
 
 func startsWithNumber(m *gen.Metric) bool {
